@@ -674,3 +674,65 @@ Proof.
   - exfalso. apply E'. apply hdiff_zero_sym; assumption.
   - exfalso. apply E. apply hdiff_zero_sym; assumption.
 Qed.
+
+(* ------------------------------------------------------------------------------------------ *)
+(** * A changed value in an object present in both files is flagged *)
+
+Lemma cmatch_same_names : forall l1 l2, map o_name l1 = map o_name l2 ->
+  cmatch l1 l2 = map (fun p => Both (fst p) (snd p)) (combine l1 l2).
+Proof.
+  induction l1 as [|a l1 IH]; intros [|b l2] E; try discriminate; [reflexivity|].
+  simpl in E. injection E as En E. rewrite cmatch_cons, En, strcmp_refl. simpl. f_equal. apply IH. assumption.
+Qed.
+
+Lemma hdiff_flags_changed_pair_lemma : forall f1 f2 a b,
+  In (Both a b) (cmatch (f_objs f1) (f_objs f2)) -> 1 <= diff_obj a b -> 1 <= hdiff_m f1 f2.
+Proof.
+  intros f1 f2 a b Hin Hd. unfold hdiff_m, match_m.
+  pose proof (gattr_diff_nonneg (f_gattrs f1) (f_gattrs f2)).
+  pose proof (zsum_in_le _ (entry_cost (Both a b)) (costs_nonneg (cmatch (f_objs f1) (f_objs f2))) (in_map _ _ _ Hin)).
+  simpl in H0. lia.
+Qed.
+
+Lemma ad_count_pos nt lo hi a b m : nt_range nt = Some (lo, hi) -> Forall (in_range lo hi) a -> Forall (in_range lo hi) b ->
+  length a = length b -> a <> b -> 1 <= ad_count nt (opts0 m) a b.
+Proof.
+  intros R Ha Hb L N. pose proof (ad_count_nonneg nt m a b).
+  destruct (Z.eq_dec (ad_count nt (opts0 m) a b) 0) as [E|E]; [|lia].
+  exfalso. apply N. apply (array_diff_zero_iff_equal_lemma nt lo hi a b m); assumption.
+Qed.
+
+Lemma diff_sds_flags_value_lemma : forall nt lo hi d v1 v2 a1 a2,
+  nt_range nt = Some (lo, hi) -> Forall (in_range lo hi) v1 -> Forall (in_range lo hi) v2 ->
+  length v1 = length v2 -> v1 <> v2 -> 1 <= diff_sds_m nt d v1 a1 nt d v2 a2.
+Proof.
+  intros nt lo hi d v1 v2 a1 a2 R H1 H2 L N. unfold diff_sds_m. rewrite Z.eqb_refl, zlist_eqb_refl. simpl.
+  pose proof (ad_count_pos nt lo hi v1 v2 (zprod d) R H1 H2 L N) as P.
+  assert (A : 0 <= sds_attrs_diff a1 a2).
+  { unfold sds_attrs_diff. destruct (negb _); [lia | apply attrs_diff_loop_nonneg]. }
+  destruct v1 as [|x v1]; destruct v2 as [|y v2]; try discriminate; [contradiction|]. lia.
+Qed.
+
+Lemma diff_vs_flags_value_lemma : forall n f v1 v2, v1 <> v2 -> diff_vs_m n f v1 n f v2 = 1.
+Proof.
+  intros n f v1 v2 N. unfold diff_vs_m. rewrite Z.eqb_refl, (list_eqb_refl _ field_eqb_refl). simpl.
+  destruct (zlist_eqb v1 v2) eqn:E; [|reflexivity]. apply zlist_eqb_eq in E. contradiction.
+Qed.
+
+Lemma diff_gr_flags_value_lemma : forall nt lo hi c x y v1 v2,
+  nt_range nt = Some (lo, hi) -> Forall (in_range lo hi) v1 -> Forall (in_range lo hi) v2 ->
+  0 <= x * y * c -> Z.of_nat (length v1) = x * y * c -> Z.of_nat (length v2) = x * y * c -> v1 <> v2 ->
+  1 <= diff_gr_m nt c x y v1 nt c x y v2.
+Proof.
+  intros nt lo hi c x y v1 v2 R H1 H2 P L1 L2 N. unfold diff_gr_m. rewrite !Z.eqb_refl. simpl.
+  destruct (zlist_eqb v1 v2) eqn:E; [apply zlist_eqb_eq in E; contradiction|].
+  unfold gr_cmp_count.
+  rewrite (firstn_all2 v1) by (apply Nat2Z.inj_le; rewrite Z2Nat.id by lia; lia).
+  rewrite (firstn_all2 v2) by (apply Nat2Z.inj_le; rewrite Z2Nat.id by lia; lia).
+  apply (ad_count_pos nt lo hi); try assumption. apply Nat2Z.inj. lia.
+Qed.
+
+(** the count diff_gr passed before the repair did not cover the later components: witness *)
+Lemma diff_gr_orig_refuted_lemma : exists v1 v2, v1 <> v2 /\ length v1 = length v2 /\
+  let n := Z.to_nat (2 * 1) in ad_count 21 (opts0 2) (firstn n v1) (firstn n v2) = 0.
+Proof. exists [1; 2; 3; 4], [1; 2; 3; 5]. split; [discriminate|]. split; reflexivity. Qed.
